@@ -105,6 +105,11 @@ def main():
             d = json.loads(l)
             done.add((d["file"], d["site"]))
     todo = [s for s in sites[:n] if (s[0], s[1]) not in done]
+    if "--sites" in a:  # explicit re-runs: file:site,file:site (results go to results-redo.jsonl)
+        want = set(tuple(x.rsplit(":", 1)) for x in opt("--sites", "").split(","))
+        todo = [s for s in sites if (s[0], str(s[1])) in want]
+        resf = os.path.join(out, "results-redo.jsonl")
+    only_checks = opt("--checks", "").split(",") if "--checks" in a else None
     print("sites in scope: %d, sampled: %d, to do: %d" % (len(sites), min(n, len(sites)), len(todo)), flush=True)
     lock = threading.Lock()
     it = iter(todo)
@@ -147,7 +152,7 @@ def main():
                             rec["status"] = "survived"
                             rec["ran"] = []
                             env = dict(ENV, VERIF_REPO=wt, VERIF_NOFUZZ="1")
-                            for c in order_for(rel):
+                            for c in (only_checks or order_for(rel)):
                                 try:
                                     rc, o = sh([os.path.join(VERIF, "check"), c, tier], cwd=VERIF, env=env, timeout=1500)
                                 except subprocess.TimeoutExpired:
